@@ -54,6 +54,9 @@ Next == \E act \in JointActions : Step(act)
 Spec == Init /\ [][Next]_vars
 
 \* explore PostSteps steps beyond the first LAST (and never beyond the limit + PostSteps, should LAST fail to come)
+\* last.act, last.reward and last.legal are only read (primed) by the action properties, which TLC evaluates on every
+\* generated transition; they do not influence the rules, so states differing only there are identified
+View == <<s, lim, last.type, ret, fl>>
 Bounded == /\ s.step_count <= lim + PostSteps
            /\ fl.at # 0 => s.step_count <= fl.at + PostSteps
 
@@ -63,8 +66,10 @@ TypeOK == /\ GridShape(s.grid) /\ LocsShape(s.agents_locations) /\ s.step_count 
 
 (* C03 *) Protocol == (last.type = FIRST <=> s.step_count = 0) /\ (s.step_count = 0 => last.reward = 0)
 
+\* joint actions used by the state invariants: the agent under scrutiny plays a, the others play b
+Probe(ag, a, b) == [x \in Agents |-> IF x = ag THEN a ELSE b]
 (* C04 *) MaskSound ==      \* the rule "inside and not a wall" is exactly "the agent moves", whatever the others do
-  \A act \in JointActions : \A ag \in Agents :
+  \A ag \in Agents : \A a \in Actions : \A b \in Actions : LET act == Probe(ag, a, b) IN
     LET to == NextLocs(s, act)[ag]  from == s.agents_locations[ag] IN
     /\ LegalAg(s, ag, act[ag]) <=> to # from
     /\ LegalAg(s, ag, act[ag]) => (to = Dest(from, act[ag]) /\ FreeCell(s.grid, to))
@@ -87,7 +92,7 @@ TypeOK == /\ GridShape(s.grid) /\ LocsShape(s.agents_locations) /\ s.step_count 
 
 (* C08 *) ReturnIsObjective == IF fl.at = 0 THEN ret = Objective(s) ELSE ret = fl.obj
 
-(* C09 *) Total == \A act \in JointActions : PhysInv(StepTo(s, act)) /\ StepTo(s, act).step_count = s.step_count + 1
+(* C09 *) Total == \A a \in Actions : LET t == StepTo(s, Probe(1, a, a)) IN PhysInv(t) /\ t.step_count = s.step_count + 1
 (* C09 *) RewardCountsTiles ==
   [][ last'.reward = (CleanCount(s'.grid) - CleanCount(s.grid)) * FX - PenaltyQ
       /\ CleanCount(s'.grid) - CleanCount(s.grid) \in 0..NA ]_vars
